@@ -198,8 +198,8 @@ def tolerated_value(s0, op, m, t, got):
         if m.duration is None:
             return op == LEFTOVER_NONE and got is None
         return got == max(0.0, m.duration - (m.stopped_at - m.started_at))
-    if s0 == NEW and m.duration is None:
-        return (op == LEFTOVER_NONE and got is None) or (op == EXPIRED and got is False)
+    # (a watch that has not been started: leftover/expired are illegal whatever the arguments - the statement's
+    # "every call that is illegal in the current state raises RuntimeError"; no tolerance here)
     return False
 
 
@@ -267,6 +267,10 @@ def _call_and_check(K, w, m, op, t):
                          state_before=STATES[s0], got=got)
             elif op == ELAPSED_MAX and not got <= K.maximum:
                 K.report('elapsed-must-not-exceed-maximum', got=got, maximum=K.maximum)
+            elif op >= LEFTOVER and m.duration is not None and not got <= m.duration:
+                # leftover = max(0, duration - elapsed) with elapsed >= 0: never more than the duration
+                K.report('leftover-must-not-exceed-duration', state_before=STATES[s0], got=got,
+                         duration=m.duration)
         elif op == SPLIT:
             try:
                 if not got.elapsed >= 0:
